@@ -157,7 +157,13 @@ def waivers : List (String × String × String) :=
     ("Hub.connectFoundService", "conn.UnderlyingConn().(*tls.Conn)", "the dialer is used with wss:// URLs only: the underlying connection of a successful dial is a *tls.Conn"),
     ("Hub.connectFoundService", "remoteCerts[0].SubjectKeyId", "crypto/tls hands out parsed (non-nil) certificates; index 0 is guarded by the length check in the same condition") ]
 
-def Site.waived (s : Site) : Bool := waivers.any fun w => w.1 == s.fn && w.2.1 == s.text
+/-- waivers that additionally need a dominating condition to be present: (function, operation text, condition) -/
+def waiverNeeds : List (String × String × G) :=
+  [ ("WebsocketConnection.WriteMessageToWebsocketConnection", "w.shipWriteChannel <- message", .sel) ]   -- the send is a select case (next to the close channel)
+
+def Site.waived (s : Site) : Bool :=
+  (waivers.any fun w => w.1 == s.fn && w.2.1 == s.text) &&
+  (waiverNeeds.all fun n => !(n.1 == s.fn && n.2.1 == s.text) || s.guards.contains n.2.2)
 
 def Site.justified (s : Site) : Bool :=
   (match s.op with
